@@ -89,26 +89,31 @@ Definition cursor0 := CU 0 0 1 [].
 Definition finish_agg (c : cursor) : glayout :=
   GL (roundup (maxend c) (8 * salign c) / 8) (salign c) (out c).
 
+(* the members of one aggregate, in order; `rec` lays out a member's type *)
+Section PlaceFields.
+  Variable rec : ctype -> glayout.
+  Variables (u : bool) (pack : Z).
+  Fixpoint place_fields (fs : list (bool * ctype * Z)) (c : cursor) : cursor :=
+    match fs with
+    | [] => c
+    | (named, ft, bits) :: fs' =>
+        let g := rec ft in
+        place_fields fs' (place_member u pack c named (g_size g) (g_align g)
+                                       (if is_agg ft then Some (g_fields g) else None) bits)
+    end.
+End PlaceFields.
+
 Fixpoint gcc_layout (t : ctype) : glayout :=
   match t with
   | TPrim s a _ => GL s a []
   | TArr item n =>
       let g := gcc_layout item in
       GL (if n <? 0 then 0 else n * g_size g) (g_align g) []
-  | TAgg u pack fields =>
-      finish_agg
-        ((fix go (fs : list (bool * ctype * Z)) (c : cursor) {struct fs} : cursor :=
-            match fs with
-            | [] => c
-            | (named, ft, bits) :: fs' =>
-                let g := gcc_layout ft in
-                go fs' (place_member u pack c named (g_size g) (g_align g)
-                                     (if is_agg ft then Some (g_fields g) else None) bits)
-            end) fields cursor0)
+  | TAgg u pack fields => finish_agg (place_fields gcc_layout u pack fields cursor0)
   end.
 
 (* the same loop, as a stand-alone function over members whose types are already laid out
-   (used to state the one-level theorems; gcc_layout_agg_eq in Proofs.v connects the two) *)
+   (used to state the one-level theorem; place_fields_place_all in Proofs.v connects the two) *)
 Definition smember := (bool * (Z * Z * option (list placed)) * Z)%type.
 
 Fixpoint place_all (u : bool) (pack : Z) (ms : list smember) (c : cursor) : cursor :=
@@ -127,7 +132,7 @@ Definition smember_of (f : field) : smember :=
 Definition is_pow2 (a : Z) : Prop := exists k, 0 <= k /\ a = 2 ^ k.
 
 (* what a C compiler accepts (and cdef can express without '...'):
-   - sizes >= 0, alignments powers of two;
+   - sizes >= 0, alignments powers of two (at most 2^30);
    - a bit-field has an integer/_Bool declared type, 0 <= width <= 8*size, width 0 only unnamed;
    - unnamed non-bit-field members are anonymous structs/unions;
    - `T x[]` only as the last member, and never as an array item;
@@ -149,7 +154,7 @@ Fixpoint fields_ok (pack : Z) (fs : list field) : Prop :=
 
 Fixpoint in_class (t : ctype) : Prop :=
   match t with
-  | TPrim s a _ => 0 <= s /\ is_pow2 a
+  | TPrim s a _ => 0 <= s /\ is_pow2 a /\ a <= 1073741824     (* SF_DEFAULT_PACKING, "a huge power of two" *)
   | TArr item n => in_class item /\ -1 <= n /\ (forall it, item <> TArr it (-1))
   | TAgg u pack fields =>
       (pack = 0 \/ is_pow2 pack) /\ fields_ok pack fields /\
